@@ -100,8 +100,8 @@ func dueDays(sched []int, shift int) []int {
 	// the model shifts the second of two equal days by one; the action happens `shift` days after its (shifted) day
 	adj := append([]int{}, sched...)
 	for i := 0; i+1 < len(adj); i++ {
-		if adj[i+1] == adj[i] {
-			adj[i+1]++
+		if adj[i+1] <= adj[i] {
+			adj[i+1] = adj[i] + 1 // carried out on consecutive days, in schedule order
 		}
 	}
 	for i := range adj {
@@ -370,6 +370,13 @@ func (m *monC10) Finish(rc *RunCtx) {
 			return ""
 		})
 	}
+	for _, l := range [][]expEvent{m.expFert, m.expTill} {
+		for i := 2; i < len(l); i++ {
+			if l[i-1].sched == l[i-2].sched && l[i].sched == l[i-1].sched+1 {
+				rc.Cov("same_day_pair_followed_by_next_day_event", 1)
+			}
+		}
+	}
 	rc.Cov("same_day_pairs", int64(m.sameDayPairs))
 	rc.Cov("pre_start_events_scheduled", int64(m.preStart))
 	rc.Cov(fmt.Sprintf("runs_date_format_%d", sc.DateFormat), 1)
@@ -382,6 +389,6 @@ func (m *monC10) Finish(rc *RunCtx) {
 func init() {
 	simProps["C10"] = simProp{checkSpec{Prop: "C10", Level: "exploration", NQuick: 400, NThorough: 12000,
 		Rule:   "cases = generated projects with 0-14 fertilisations over every row of the fertiliser table, 0-10 tillages in fallow windows, 0-12 irrigations, same-day pairs, consecutive days, events before the start and after the end, events of other fields in the same files, all four date formats; the management event log of the real run is compared per kind with a reference reader of the generated schedule (exactly once, in order, on the due day) and the state jumps on the due day with the amounts from the fertiliser table; non-trivial = >30 days and at least one scheduled action",
-		Floors: []string{"fertilization_events_checked", "tillage_events_checked", "irrigation_events_checked", "sowing_events_checked", "harvest_events_checked", "fertiliser_amounts_checked", "irrigation_days_checked", "same_day_pairs", "pre_start_events_scheduled", "runs_date_format_0", "runs_date_format_1", "runs_date_format_2", "runs_date_format_3", "runs_with_second_field_in_files"}},
+		Floors: []string{"fertilization_events_checked", "tillage_events_checked", "irrigation_events_checked", "sowing_events_checked", "harvest_events_checked", "fertiliser_amounts_checked", "irrigation_days_checked", "same_day_pairs", "same_day_pair_followed_by_next_day_event", "pre_start_events_scheduled", "runs_date_format_0", "runs_date_format_1", "runs_date_format_2", "runs_date_format_3", "runs_with_second_field_in_files"}},
 		func() []Monitor { return []Monitor{&monC10{}} }}
 }
